@@ -56,7 +56,7 @@ impl Feat {
         Feat {
             records: true,
             variants: true,
-            aliases: false,
+            aliases: true,
             spread: true,
             lists: true,
             maps: true,
@@ -599,11 +599,18 @@ impl<'t, 'c> Gen<'t, 'c> {
             8 => GExpr::Paren(Box::new(self.gen_int(ctx_datum, depth + 1, locals_upto))),
             9 => {
                 self.mark("time_builtin");
-                match self.t.pick(3) {
+                // the compiler evaluates its built-ins in one bottom-up pass without reducing in
+                // between, so an operand must not contain another built-in (directly or through
+                // a local): that combination is C07's subject
+                let saved = self.feat.time_builtins;
+                self.feat.time_builtins = false;
+                let e = match self.t.pick(3) {
                     0 => GExpr::TipSlot,
-                    1 => GExpr::SlotToTime(Box::new(self.gen_int(ctx_datum, depth + 2, locals_upto))),
-                    _ => GExpr::TimeToSlot(Box::new(self.gen_int(ctx_datum, depth + 2, locals_upto))),
-                }
+                    1 => GExpr::SlotToTime(Box::new(self.gen_int(ctx_datum, depth + 2, 0))),
+                    _ => GExpr::TimeToSlot(Box::new(self.gen_int(ctx_datum, depth + 2, 0))),
+                };
+                self.feat.time_builtins = saved;
+                e
             }
             _ => {
                 self.mark("index_access");
